@@ -34,7 +34,7 @@ import (
 
 func genCmt(a hx.Args) {
 	r := hx.NewRng(a.Seed)
-	n := a.N(80, 1500)
+	n := a.N(300, 3000)
 	for i := 0; i < n; i++ {
 		hx.Emit("cmt %d %d %d %d %d %d", r.U64()%1000000, 1+r.Intn(4), 1+r.Intn(2), 4+r.Intn(16), hx.Pick(r, []int{0, 10, 25, 40}), r.Intn(2))
 	}
@@ -164,8 +164,10 @@ func runCmt(t *testing.T, tk []string) string {
 	})
 	ctx, cancel := context.WithCancel(context.Background())
 	defer cancel()
+	// the retry back-off of the scenario: a commit that is answered with a retriable error stays "in flight" that long
+	backoff := []time.Duration{10 * time.Millisecond, 10 * time.Millisecond, 60 * time.Millisecond, 250 * time.Millisecond}[seed%4]
 	common := []kgo.Opt{kgo.SeedBrokers(cluster.ListenAddrs()...), kgo.Dialer(net.Stack.DialContext),
-		kgo.RetryBackoffFn(func(int) time.Duration { return 10 * time.Millisecond })}
+		kgo.RetryBackoffFn(func(int) time.Duration { return backoff })}
 	gopts := append([]kgo.Opt{kgo.ConsumerGroup("g"), kgo.ConsumeTopics("t"), kgo.DisableAutoCommit(),
 		kgo.SessionTimeout(6 * time.Second), kgo.HeartbeatInterval(300 * time.Millisecond), kgo.RebalanceTimeout(4 * time.Second),
 		kgo.FetchMaxWait(50 * time.Millisecond)}, common...)
@@ -253,6 +255,7 @@ func runCmt(t *testing.T, tk []string) string {
 			desc = append(desc, fmt.Sprintf("0=%d", 1000+k))
 		}
 		sort.Strings(desc)
+		short := seed%5 < 2 && crng.Chance(25)
 		onDone := func(_ *kgo.Client, _ *kmsg.OffsetCommitRequest, resp *kmsg.OffsetCommitResponse, err error) {
 			res := "ok"
 			if err != nil {
@@ -267,9 +270,19 @@ func runCmt(t *testing.T, tk []string) string {
 				}
 			}
 			log.Add("Ce:%d:%s", k, res)
+			if short && res == "err" {
+				log.Add("Cunknown")
+			}
 			done.Done()
 		}
 		cctx, cc := context.WithTimeout(ctx, 20*time.Second)
+		if short {
+			// a commit whose own context ends early, possibly while it is queued behind a slow or retrying
+			// predecessor: it may or may not take effect, the commits around it must still apply in order
+			cc()
+			cctx, cc = context.WithTimeout(ctx, time.Duration(crng.Intn(120))*time.Millisecond)
+			hx.St.Inc("scen.cmt.short-context")
+		}
 		switch api := crng.Intn(3); api {
 		case 0:
 			log.Add("Cs:%d:a:%s", k, strings.Join(desc, ","))
@@ -291,6 +304,9 @@ func runCmt(t *testing.T, tk []string) string {
 				res = "err"
 			}
 			log.Add("Ce:%d:%s", k, res)
+			if short && res == "err" {
+				log.Add("Cunknown")
+			}
 		}
 		_ = cc
 		if crng.Chance(40) {
